@@ -111,8 +111,21 @@ def judge(hist, key, history_genuine_same=True):
             viol.append(f"decode_message_payload {what} although {[names[i] for i in acc]} accept the payload")
         return viol, esc, state, False
     after = a.previous_success_decoder
-    _last_result["res"] = res
+    _last_result["res"] = dict(res) if isinstance(res, dict) else res
     _last_result["digest"] = digest(a)
+    if isinstance(res, dict):
+        # the returned dictionary belongs to the caller: scribble on it, then the same payload (this time handed over as a
+        # bytearray that is overwritten afterwards) must decode to the same values again
+        keep = dict(res)
+        res.clear()
+        res["meter_manufacturer"] = "scribbled by the caller"
+        buf = bytearray(payload)
+        again = a.decode_message_payload(buf)
+        for i in range(len(buf)):
+            buf[i] = 0
+        if not same_result(again, keep):
+            viol.append(f"decoding the same payload a second time (after the caller changed the first result) gives {again!r:.80}, first result was {keep!r:.80}")
+        res = keep
     if res is None:
         if acc:
             viol.append(f"result None although {[names[i] for i in acc]} accept the payload")
